@@ -392,7 +392,9 @@ pub fn record(args: &[String]) {
                             }
                         }
                         // every pair of verifier shares (field kind x round) through verifier_shares_to_message, judged by CombineOK
-                        let shares = [(kind_a, 3, vs_a0.clone()), (kind_b, 3, vs_b0.clone()), (kind_a, 1, vs2_a0), (kind_b, 1, vs2_b0)];
+                        // (empty verifier shares of either kind can be built through the public enum: no length is acceptable but 3 and 1)
+                        let empty = |k: &str| if k == "leaf" { Poplar1FieldVec::Leaf(vec![]) } else { Poplar1FieldVec::Inner(vec![]) };
+                        let shares = [(kind_a, 3, vs_a0.clone()), (kind_b, 3, vs_b0.clone()), (kind_a, 1, vs2_a0), (kind_b, 1, vs2_b0), (kind_a, 0, empty(kind_a)), (kind_b, 0, empty(kind_b))];
                         for (k0, l0, s0) in shares.iter() {
                             for (k1, l1, s1) in shares.iter() {
                                 // equal round-two shares do not sum to zero (that verdict is the zero test of "s2m" events): skip the arithmetic case
